@@ -117,13 +117,21 @@ func clientGone(rq int, s godi.Scope) {
 	if s == nil {
 		return
 	}
+	// ... until the Close that the cancellation started has COMPLETED (hook event at the end of Close): the close at the
+	// end of the request is then a pure no-op.  (Waiting only for "refuses further use" left a window in which the
+	// watcher was still disposing when the request ended - the trace then showed the scope closed after the request,
+	// which the code does not promise to avoid for a cancelled request: a false alarm of this dimension, seen on a
+	// loaded machine.)
+	id := s.ID()
 	for i := 0; i < 3000; i++ {
-		if _, err := godi.Resolve[*Probe](s); errors.Is(err, godi.ErrScopeDisposed) {
+		if _, ok := closedScopes.Load(id); ok {
 			return
 		}
 		time.Sleep(time.Millisecond)
 	}
 }
+
+var closedScopes sync.Map // scope id -> true once its Close has completed (hook C_ret)
 
 // outerCtx is the context every incoming request carries (context.Background unless the scenario says the
 // server's base context belongs to an application-level scope of the same provider)
@@ -592,6 +600,7 @@ var rqCounter int
 
 func runScenario(sc *Scenario, raw []byte, run int) {
 	emit(M{"ev": "reset", "run": run, "cfg": json.RawMessage(raw)})
+	closedScopes = sync.Map{}
 	c := godi.NewCollection()
 	c.AddScoped(newProbe)
 	if sc.Registered {
@@ -666,6 +675,7 @@ func main() {
 		if point == "C_ret" && len(args) > 0 {
 			if s, ok := args[0].(godi.Scope); ok {
 				emit(M{"ev": "scope_closed", "scope": s.ID()})
+				closedScopes.Store(s.ID(), true)
 			}
 		}
 	}
